@@ -89,6 +89,12 @@ def run(S):
     # the validation primitive itself: a split sends the reader back to the root (shared with C06)
     from checks.C06 import rule_eq
     rule_eq(S)
+    # mechanisms this property rests on (checks/shared.py)
+    from checks import shared
+    shared.version_word(S)
+    shared.permutation_word(S)
+    shared.descent(S)
+    shared.writers_dirty(S)
 
 
 SHRINKS = ('erase', 'resize', 'pop_back', 'clear')
